@@ -47,6 +47,7 @@ type Version struct {
 	stability    int    // Stability level (dev, alpha, beta, RC, stable)
 	stabilityNum int    // Stability version number (e.g., alpha.2)
 	build        string // Build metadata
+	isPatch      bool   // True for patch-level suffixes (-patch, pl): newer than the plain release
 	isDev        bool   // True for dev- prefixed versions
 	devBranch    string // Branch name for dev versions
 	original     string
@@ -120,6 +121,7 @@ func (e *Ecosystem) NewVersion(version string) (*Version, error) {
 			stabilityStr := strings.ToLower(matches[6])
 			if stabilityStr == "patch" || stabilityStr == "pl" {
 				v.stability = stabilityStable // Treat patch/pl as stable
+				v.isPatch = true
 			} else if stability, exists := stabilityMap[stabilityStr]; exists {
 				v.stability = stability
 			} else {
@@ -138,6 +140,7 @@ func (e *Ecosystem) NewVersion(version string) (*Version, error) {
 			stabilityStr := strings.ToLower(matches[8])
 			if stabilityStr == "pl" {
 				v.stability = stabilityStable // Treat pl as stable
+				v.isPatch = true
 			} else if stability, exists := stabilityMap[stabilityStr]; exists {
 				v.stability = stability
 			} else {
@@ -264,6 +267,14 @@ func (v *Version) Compare(other *Version) int {
 	// Compare stability - stable versions are higher than pre-release
 	if v.stability != other.stability {
 		return compareInt(v.stability, other.stability)
+	}
+
+	// A patch-level release (1.0.0-patch, 1.0pl1) is newer than the plain release
+	if v.isPatch != other.isPatch {
+		if v.isPatch {
+			return 1
+		}
+		return -1
 	}
 
 	// Same stability level - compare stability numbers
